@@ -226,7 +226,7 @@ func (sc *SortCtx) SortOf(t types.Type) string {
 	case *types.Array:
 		return "(Array Int " + sc.SortOf(u.Elem()) + ")"
 	case *types.Struct:
-		return sc.structSort(fmt.Sprintf("anon%d", len(sc.structs)), u)
+		return sc.structSort("anon_"+sanitize(types.TypeString(u, func(p *types.Package) string { return p.Name() })), u)
 	case *types.Tuple:
 		return "Int"
 	}
@@ -300,6 +300,10 @@ func (sc *SortCtx) mapSorts(m *types.Map) (dom, val, ks, vs string) {
 		sc.axiom(card+"-empty", fmt.Sprintf("(assert (= (%s ((as const (Array %s Bool)) false)) 0))", card, ks))
 		sc.axiom(card+"-zero", fmt.Sprintf("(assert (forall ((d (Array %s Bool)) (k %s)) (! (=> (= (%s d) 0) (not (select d k))) :pattern ((%s d) (select d k)))))", ks, ks, card, card))
 		sc.axiom(card+"-zero2", fmt.Sprintf("(assert (forall ((d (Array %s Bool))) (! (=> (= (%s d) 0) (= d ((as const (Array %s Bool)) false))) :pattern ((%s d)))))", ks, card, ks, card))
+		wit := "wit_" + mangle(ks)
+		sc.declFun(wit, fmt.Sprintf("(declare-fun %s ((Array %s Bool)) %s)", wit, ks, ks))
+		sc.axiom(card+"-pos", fmt.Sprintf("(assert (forall ((d (Array %s Bool))) (! (=> (> (%s d) 0) (select d (%s d))) :pattern ((%s d)))))", ks, card, wit, card))
+		sc.axiom(card+"-one", fmt.Sprintf("(assert (forall ((d (Array %s Bool)) (a %s) (b %s)) (! (=> (and (= (%s d) 1) (select d a) (select d b)) (= a b)) :pattern ((%s d) (select d a) (select d b)))))", ks, ks, ks, card, card))
 		sc.axiom(card+"-store", fmt.Sprintf("(assert (forall ((d (Array %s Bool)) (k %s)) (! (= (%s (store d k true)) (ite (select d k) (%s d) (+ (%s d) 1))) :pattern ((%s (store d k true))))))", ks, ks, card, card, card, card))
 		sc.axiom(card+"-del", fmt.Sprintf("(assert (forall ((d (Array %s Bool)) (k %s)) (! (= (%s (store d k false)) (ite (select d k) (- (%s d) 1) (%s d))) :pattern ((%s (store d k false))))))", ks, ks, card, card, card, card))
 	}
